@@ -114,3 +114,17 @@ Proof.
   intros [h|r] _; [destruct b; [reflexivity|rewrite H; reflexivity]|].
   f_equal. apply repl_rule_ext. intros u _. apply H.
 Qed.
+
+(* replaceUrls(style, replacer): the same laws for a bare declaration block *)
+Lemma replace_style_ext_lemma f g st :
+  replaceUrls_style f st = replaceUrls_style g st <-> (forall u, In u (style_urls st) -> f u = g u).
+Proof.
+  split.
+  - intros H. apply map_eq_In. rewrite <- !replace_style_then_get_lemma, H. reflexivity.
+  - intros H. unfold replaceUrls_style. apply repl_style_ext. intros u Hu. apply H.
+    rewrite style_urls_spec. exact Hu.
+Qed.
+
+Lemma replace_style_compose_lemma g f st :
+  replaceUrls_style g (replaceUrls_style f st) = replaceUrls_style (fun u => g (f u)) st.
+Proof. unfold replaceUrls_style. apply repl_style_comp. Qed.
